@@ -3,3 +3,5 @@ import GitBugModel.Model.Conn
 import GitBugModel.Props.C20
 import GitBugModel.Model.Ids
 import GitBugModel.Props.C13
+import GitBugModel.Model.Bug
+import GitBugModel.Props.C10
